@@ -561,6 +561,13 @@ class sptensor:
         if i_0 == i_1:
             assert False, "Must contract along two different dimensions"
 
+        # No stored entries: the result is zero
+        if self.nnz == 0:
+            if self.ndims == 2:
+                return 0.0
+            remdims = np.setdiff1d(np.arange(0, self.ndims), np.array([i_0, i_1]))
+            return ttb.sptensor(shape=tuple(np.array(self.shape)[remdims]))
+
         # Easy case - returns a scalar
         if self.ndims == 2:
             tfidx = self.subs[:, 0] == self.subs[:, 1]  # find diagonal entries
